@@ -224,8 +224,51 @@ struct St {
     mats32: MatRegs<f32>,
 }
 
+thread_local! {
+    static PICKED: std::cell::RefCell<Vec<usize>> = std::cell::RefCell::new(vec![]);
+}
+
+// `$k` refers to the k-th id returned by the last `pick`
 fn usz(s: &str) -> usize {
+    if let Some(k) = s.strip_prefix('$') {
+        let k: usize = k.parse().unwrap();
+        return PICKED.with(|p| p.borrow().get(k).copied().unwrap_or(99999));
+    }
     s.parse::<usize>().unwrap()
+}
+
+// pick <kind> <k>: resolves a selector against the current tree (so that random walks stay mostly valid)
+fn pick(t: &Tree, kind: &str, k: usize) -> Vec<usize> {
+    let live: Vec<usize> = (0..t.size()).filter(|i| t.get(i).is_ok()).collect();
+    let sel = |v: &Vec<usize>| -> Vec<usize> {
+        if v.is_empty() {
+            vec![]
+        } else {
+            vec![v[k % v.len()]]
+        }
+    };
+    match kind {
+        "live" => sel(&live),
+        "nonroot" => sel(&live.iter().copied().filter(|i| t.get(i).unwrap().parent.is_some()).collect()),
+        "leaf" => sel(&live.iter().copied().filter(|i| t.get(i).unwrap().is_tip()).collect()),
+        "internal" => sel(&live.iter().copied().filter(|i| !t.get(i).unwrap().is_tip()).collect()),
+        "sibpair" => {
+            let ps: Vec<usize> = live.iter().copied().filter(|i| t.get(i).unwrap().children.len() >= 2).collect();
+            if ps.is_empty() {
+                vec![]
+            } else {
+                let p = ps[k % ps.len()];
+                let ch = &t.get(&p).unwrap().children;
+                let a = (k / ps.len()) % ch.len();
+                let mut b = (k / ps.len() / ch.len()) % (ch.len() - 1);
+                if b >= a {
+                    b += 1;
+                }
+                vec![ch[a], ch[b]]
+            }
+        }
+        _ => vec![k % (t.size() + 2)],
+    }
 }
 
 fn run_op(st: &mut St, a: &[&str]) -> R {
@@ -238,6 +281,11 @@ fn run_op(st: &mut St, a: &[&str]) -> R {
             }
             st.cur = k;
             Ok(String::new())
+        }
+        "pick" => {
+            let v = pick(&st.trees[cur], a[1], a[2].parse::<usize>().unwrap());
+            PICKED.with(|p| *p.borrow_mut() = v.clone());
+            Ok(enc_ids(&v))
         }
         "new" => {
             st.trees[cur] = Tree::new();
@@ -527,7 +575,7 @@ fn main() {
     for line in input.lines() {
         let line = line.unwrap();
         let a: Vec<&str> = line.split(' ').filter(|s| !s.is_empty()).collect();
-        if a.is_empty() {
+        if a.is_empty() || a[0].starts_with('#') {
             continue;
         }
         if a[0] == "case" {
